@@ -168,8 +168,13 @@ def ni_rules(chk, ctx):
         if isinstance(n, ast.Attribute) and n.attr == "_storage":
             sub = any(isinstance(p, ast.Subscript) and p.value is n for p in ast.walk(fn))
             if not sub:
-                chk.decide("C14.NI", f"{base}#label-table-use", False, f"self._storage used as a whole at line {n.lineno}",
-                           rel=REL, node=n)
+                # its length is the total number of units (the sum, which the split does not change)
+                length = any(isinstance(p, ast.Call) and isinstance(p.func, ast.Name) and p.func.id == "len" and len(p.args) == 1
+                             and p.args[0] is n for p in ast.walk(fn))
+                chk.decide("C14.NI", f"{base}#label-table-use", True if length else None,
+                           f"self._storage used as a whole at line {n.lineno}" + (": only its length (the unit total)" if length else
+                           ": whether the split influences the stream through this use is not followed"), rel=REL, node=n,
+                           nontrivial=False)
 
 
 def slot_rules(chk, ctx):
